@@ -62,12 +62,16 @@ def failing_plugin_ud(rng):
     return s
 
 
-JUNK_KINDS = ['pluginFailsThenCut', 'pluginFailsThenCut', 'pceSizeMore', 'calloutFlip', 'calloutFlip', 'empty', 'badPHid', 'badUHid', 'truncInHeaders', 'truncAfterHeaders', 'truncAfterSRC',
+JUNK_KINDS = ['danglingLink', 'danglingLink', 'pluginFailsThenCut', 'pluginFailsThenCut', 'pceSizeMore', 'calloutFlip', 'calloutFlip', 'empty', 'badPHid', 'badUHid', 'truncInHeaders', 'truncAfterHeaders', 'truncAfterSRC',
               'corruptLater', 'random', 'pceSize', 'badUtf8Creator', 'badUtf8Src', 'hugeWordCount', 'noPrimarySrc', 'countTwo', 'byteflip', 'byteflip', 'byteflip']
 
 
 def make_junk(rng, kind, base_pel):
     """bytes of a junk file derived from a well-formed PEL"""
+    if kind == 'danglingLink':
+        # not even readable: a symbolic link whose target does not exist (a file removed while the tool runs, a
+        # log rotated away, looks the same to open())
+        return ('symlink', '/nonexistent/verif-target-%d' % rng.randrange(10 ** 6))
     data = bytearray(encode.encode(base_pel))
     if kind == 'empty':
         return b''
@@ -166,7 +170,10 @@ def write_dir(d, files):
     for name, data in files:
         p = os.path.join(d, name)
         os.makedirs(os.path.dirname(p), exist_ok=True)
-        seams.write_file(p, data)
+        if isinstance(data, tuple) and data[0] == 'symlink':
+            os.symlink(data[1], p)                   # a directory entry that cannot be opened (dangling link)
+        else:
+            seams.write_file(p, data)
 
 
 def sha(s):
